@@ -14,3 +14,17 @@ Proof. exact ProofsB.t_prefix_eof. Qed.
 (* Unmarshal reports trailing bytes *)
 Theorem t_trailing : t_trailing_statement.
 Proof. exact ProofsB.t_trailing. Qed.
+
+(* ---- unknown fields, missing required fields (Thrift/SpecC.v, proofs in Thrift/ProofsC.v) ---- *)
+From Verif Require Import Thrift.SpecC Thrift.ProofsC.
+
+(* fields the target does not declare -- any ids, any supported type and value, any number, at every field boundary
+   (the bytes are Marshal's for a wider struct; compact delta ids are re-encoded by construction) -- are skipped:
+   Unmarshal into the narrow type gives exactly the result of the narrow encoding, the declared values up to tnorm *)
+Theorem t_unknown_fields : t_unknown_fields_statement.
+Proof. exact ProofsC.t_unknown_fields. Qed.
+
+(* a required field absent from the input, at any position among the fields, either protocol: MissingField
+   (that it is not reported when present is part of C04 t_roundtrip) *)
+Theorem t_missing_field : t_missing_field_statement.
+Proof. exact ProofsC.t_missing_field. Qed.
